@@ -150,7 +150,8 @@ def call_one(fn, blocks, state) -> Optional[str]:
 
 
 def script_for(name: str, variant: int = 0, n: int = 2) -> List[str]:
-    return [f"{name}_v{variant}_line{i}" for i in range(n)]
+    # python source: bodies of if/for blocks are indented, continuation lines aligned - the text must arrive unaltered
+    return [("    " if i % 2 else "") + ("\t" if i % 5 == 3 else "") + f"{name}_v{variant}_line{i}" + ("  # c" if i % 4 == 2 else "") for i in range(n)]
 
 
 def worker(args: Dict[str, Any]) -> Dict[str, Any]:
@@ -223,7 +224,7 @@ def random_blocks(R: random.Random) -> List[Tuple[str, List[str], List[str]]]:
 
 
 # ---------------------------------------------------------------- executor path
-def build_query(blocks, placement) -> str:
+def build_query(blocks, placement, omit_empty_deps: bool = False) -> str:
     """blocks as add_job_script metadata.  placement None: all on the dataset; else one of 'ds', 'after_where', 'inner_collection',
     'discarded_element' per block (metadata may ride on any sub-expression of the query, also on one that tuple resolution removes)."""
     placement = placement or ["ds"] * len(blocks)
@@ -231,7 +232,9 @@ def build_query(blocks, placement) -> str:
     def wrap(expr, where):
         for (n, s, d), p in zip(blocks, placement):
             if p == where:
-                expr = f"MetaData({expr}, {{'metadata_type': 'add_job_script', 'name': {n!r}, 'script': {s!r}, 'depends_on': {d!r}}})"
+                # the depends_on key may be left out when a block depends on nothing (every other such block does so)
+                dep = "" if (not d and (omit_empty_deps or sum(map(ord, n)) % 2 == 0)) else f", 'depends_on': {d!r}"
+                expr = f"MetaData({expr}, {{'metadata_type': 'add_job_script', 'name': {n!r}, 'script': {s!r}{dep}}})"
         return expr
     q = wrap("ds", "ds")
     if "after_where" in placement:
@@ -255,8 +258,8 @@ def executor_worker(args: Dict[str, Any]) -> Dict[str, Any]:
     from ..xlate import translate_job
 
     blocks = args["blocks"]
-    q = build_query(blocks, args.get("placement"))
-    pre = [build_query(b, None) for b in args.get("pre_blocks", [])]
+    q = build_query(blocks, args.get("placement"), args.get("omit_empty_deps", False))
+    pre = [build_query(b, None, args.get("omit_empty_deps", False)) for b in args.get("pre_blocks", [])]
     res = translate_job({"backend": "atlas", "query": q, "out": args["out"], "pre_queries": pre})
     exp = expected_outcome(blocks)
     if res["status"] != "ok":
@@ -321,6 +324,15 @@ def run(ctx: Ctx) -> int:
         ereqs.append({"fn": "vf.props.c15:executor_worker", "args": {"blocks": bl, "pre_blocks": pre, "out": str(ctx.scratch / f"exes{i}")}})
         ctx.count("same_executor_sequences")
         ctx.count("earlier_block_sets_refused", sum(1 for p in pre if expected_outcome(p)[0] == "error"))
+    # a block sent twice with the same script, the copy that is processed first (the outermost one) naming no dependencies,
+    # next to other blocks that name none either; then further queries in the same process
+    for i in range(ctx.pick(6, 40)):
+        names = R.sample([f"b{k}" for k in range(9)], 4)
+        x, y, z, solo = names
+        first = [(x, script_for(x, 0, 2), [y]), (y, script_for(y, 0, 1), []), (z, script_for(z, 0, 3), []), (x, script_for(x, 0, 2), [])]
+        ereqs.append({"fn": "vf.props.c15:executor_worker", "args": {"blocks": first, "omit_empty_deps": True, "out": str(ctx.scratch / f"exed{i}")}})
+        ereqs.append({"fn": "vf.props.c15:executor_worker", "args": {"blocks": [(solo, script_for(solo, 0, 2), []), (z, script_for(z, 0, 3), [])], "pre_blocks": [first], "omit_empty_deps": True,
+                                                                     "out": str(ctx.scratch / f"exee{i}")}})
     for r, q in zip(run_batch(ereqs, ctx.scratch), ereqs):
         if "why" not in r:
             ctx.inconclusive.append(f"executor worker failed: {r}"[:300])
